@@ -132,9 +132,11 @@ func (w *webWriter) writeTrailer() error {
 func (w *webWriter) flushWithTrailer() {
 	// Write trailers only if message has been sent.
 	if w.wroteHeader || w.wroteResp {
-		if err := w.writeTrailer(); err != nil {
-			return // nothing
-		}
+		_ = w.writeTrailer() // nothing to do on error
+	}
+	// Flush the partial base64 quantum of grpc-web-text.
+	if c, ok := w.resp.(io.Closer); ok {
+		c.Close()
 	}
 	w.Flush()
 }
